@@ -363,7 +363,8 @@ def copy_sharing(ctx, d1):
                     if tgt in ('_X', '_stoichiometry') and kinds.get(tgt) not in ('list', 'ndarray'):
                         kinds[tgt] = 'array updated in place'
         # X setter of Reaction stores float(X): immutable
-        ps, _ = run_paths(f.node, decide=lambda t, s: False if src(t) == 'basis' else None)
+        from ..pathcond import scenario_decide as _sdb
+        ps, _ = run_paths(f.node, decide=_sdb(lambda t: False if (isinstance(t, ast.Name) and t.id == 'basis') else None))      # no re-basing asked for
         p = [q for q in ps if not q.raised][0]
         cons = '%s.copy' % cname
         for e in p.events:
